@@ -13,14 +13,16 @@ VARIANTS = [None, "swap", "le", "be"]
 
 CONFIGS = {
     "quick": [
-        ("MC_C15_mix", "MC_C15_mix.cfg", {"MaxSegs": 2}, ["eager"], 1),
+        # (rotation 1 turns the seven types into Uint16, DoubleFloat, SingleFloatWithUnit, String, ComplexDoubleFloat,
+        # DoubleFloatWithUnit, Int8: every other file uses those)
+        ("MC_C15_mix", "MC_C15_mix.cfg", {"MaxSegs": 2}, ["eager"], 2),
         ("MC_C01_props", "MC_C01_props.cfg", {"MaxSegs": 2, "MaxPropObjs": 1}, ["eager"], 3),
         # byte order chosen per segment while indexes are inherited (matches-previous / unlisted / no metadata)
         ("MC_C15_mix", "MC_C15_inherit.cfg", {"MaxSegs": 2, "TypeSet": "c_TypeSetInh", "ObjLists": "c_ObjListsInh",
                                               "Layouts": '{"contig"}', "KVals": "{1}"}, ["eager", "lazy"], 1),
     ],
     "thorough": [
-        ("MC_C15_mix", "MC_C15_mix.cfg", {"MaxSegs": 2}, ["eager", "lazy"], 1),
+        ("MC_C15_mix", "MC_C15_mix.cfg", {"MaxSegs": 2}, ["eager", "lazy"], 5),
         ("MC_C01_types", "MC_C01_types.cfg", {"MaxSegs": 1}, ["eager", "lazy"], 1),
         ("MC_C01_props", "MC_C01_props.cfg", {"MaxSegs": 2, "MaxPropObjs": 2}, ["eager", "lazy"], 3),
         ("MC_C15_mix", "MC_C15_inherit.cfg", {"MaxSegs": 3, "TypeSet": "c_TypeSetInh", "ObjLists": "c_ObjListsInh",
